@@ -27,7 +27,7 @@ Inductive macro :=
 Definition enq_conn (i : instr) : Z :=
   match i with
   | ISendErr k _ _ => k
-  | IRcvEnq r _ => r_d r
+  | IRcvEnq r _ _ => r_d r
   | _ => -1
   end.
 
